@@ -34,10 +34,10 @@ def scale(profiles, k):
 
 
 Q01 = [("mailbox", 30000), ("backpressure", 8000), ("lifecycle", 8000), ("owning", 4000)]
-Q02 = [("mailbox", 16000), ("lifecycle", 16000), ("owning", 8000), ("backpressure", 4000)]
-Q03 = [("lifecycle", 24000), ("owning", 8000), ("handles", 6000), ("mailbox", 4000)]
-Q04 = [("lifecycle", 30000), ("owning", 12000), ("mailbox", 6000), ("backpressure", 4000)]
-Q05 = [("handles", 24000), ("lifecycle", 12000), ("owning", 6000), ("mailbox", 4000)]
+Q02 = [("mailbox", 16000), ("lifecycle", 16000), ("owning", 10000), ("backpressure", 4000), ("timeout", 6000)]
+Q03 = [("lifecycle", 24000), ("owning", 8000), ("handles", 6000), ("mailbox", 4000), ("stream", 8000), ("restart", 6000)]
+Q04 = [("lifecycle", 30000), ("owning", 12000), ("mailbox", 6000), ("backpressure", 4000), ("timeout", 8000)]
+Q05 = [("handles", 24000), ("lifecycle", 12000), ("owning", 6000), ("mailbox", 4000), ("broker", 8000), ("stream", 6000), ("timers", 6000)]
 Q12 = [("backpressure", 30000), ("mailbox", 10000), ("lifecycle", 4000)]
 Q17 = [("owning", 30000), ("lifecycle", 10000), ("mailbox", 4000)]
 
@@ -48,7 +48,7 @@ Q13 = [("stream", 30000), ("lifecycle", 10000), ("owning", 6000)]
 Q14 = [("liveness", 30000), ("lifecycle", 10000), ("handles", 6000)]
 Q15 = [("kinds", 30000), ("handles", 12000), ("restart", 4000), ("lifecycle", 4000)]
 
-Q06 = [("faults+faults", 700), ("tree+faults", 500), ("svcfaults+faults", 300), ("lifecycle+faults", 300)]
+Q06 = [("faults+faults", 700), ("tree+faults", 500), ("svcfaults+faults", 300), ("lifecycle+faults", 300), ("timeout", 8000)]
 Q16 = [("tree", 30000), ("tree+faults", 300), ("faults", 4000)]
 
 Q08 = [("registry", 40000), ("liveness", 6000), ("svcfaults", 2000)]
@@ -64,7 +64,7 @@ PLANS = {
                 ["C02.R1", "C02.R2", "C02.R3", "C02.R4.resolved", "C02.R5.after_end", "C02.R5.await_after_end", "C02.R5.pending_across_end"]),
     "C03": plan(Q03, scale(Q03, 40),
                 "an actor had >=1 restart, or terminated gracefully after a stop/drop/stream-end with >=1 message handled",
-                ["C03.R1.started_first", "C03.R2.nothing_after_stopped", "C03.R3.graceful_end", "C03.R3.finished_on_stream_actor",
+                ["C03.R1.started_first", "C03.R2.nothing_after_stopped", "C03.R3.graceful_end", "C03.R3.finished_on_stream_actor", "C03.R3.cause_leads_to_stopped",
                  "C03.R4.restart_closes_incarnation"]),
     "C04": plan(Q04, scale(Q04, 40),
                 "a submission was concurrent with, or begun after, a stop request",
@@ -84,7 +84,7 @@ PLANS = {
     "C07": plan(Q07, scale(Q07, 40),
                 "at least one restart request (Addr::restart or Context::restart) was accepted",
                 ["C07.R1.handles_survive", "C07.R2.incarnation_of_message", "C07.R3.restart_count", "C07.R3.strategy_model",
-                 "C07.R3.state_carried_or_reset", "C07.R3.non_restartable_ignores", "C07.R4.started_error_fails", "C07.R5.old_timers_silent"]),
+                 "C07.R3.state_carried_or_reset", "C07.R3.non_restartable_ignores", "C07.R3.non_restartable_timers_unaffected", "C07.R4.started_error_fails", "C07.R5.old_timers_silent"]),
     "C10": plan(Q10, scale(Q10, 40),
                 "a periodic timer delivered at least twice, or an actor terminated while its timers were pending",
                 ["C10.R1.not_before_period", "C10.R2.exact_schedule", "C10.R3.delayed_at_most_once", "C10.R4.nothing_after_end",
